@@ -342,7 +342,7 @@ def _expected_hmacs_mc(cfg, q, saved):
         out.append(hmac_sha256(bytes.fromhex(key), bytes.fromhex(ev["first"])).hex())
         if ev["second"] is not None and hc.get("without_uv"):
             out.append(hmac_sha256(bytes.fromhex(key), bytes.fromhex(ev["second"])).hex())
-    except (TypeError, KeyError):
+    except (TypeError, KeyError, AttributeError):   # AttributeError: a secret saved although the configuration has no hmac-secret
         pass
     return out
 
@@ -375,7 +375,7 @@ def cases_of(scenarios, outputs):
 # the standard flow of a ceremony-level property check
 
 def standard_check(run, prop, scenarios, meta, coq_oracles, py_oracle=None, coq_files=(), rule="", extra_targets=(),
-                   pair_oracle=None, assumptions=(), client=False, extra_preamble=""):
+                   pair_oracle=None, assumptions=(), client=False, extra_preamble="", shard=200):
     """scenarios: harness cases; meta: one hashable signature per scenario (distinctness measure);
     coq_oracles: names of `ccase -> bool` functions (besides `agree`) evaluated on the implementation's
     observations; py_oracle(sc, out) -> list of failure strings (independent Python checks: signatures,
@@ -400,7 +400,7 @@ def standard_check(run, prop, scenarios, meta, coq_oracles, py_oracle=None, coq_
     live = [(si, oi, op, obs, t) for (si, oi, op, obs, t) in flat if t is not None]
     terms = [t for (_, _, _, _, t) in live]
     funcs = [agree_fn] + list(coq_oracles)
-    res = common.coq_eval(prop, preamble, terms, funcs, shard=200)
+    res = common.coq_eval(prop, preamble, terms, funcs, shard=shard)
     res["agree"] = res[agree_fn]
     n_viol = 0
     for si, obs in crashed[:3]:
